@@ -2291,3 +2291,254 @@ func runC16Encoding(c *Ctx) {
 		c.bad(construct, at, "the snippet is cut out of the raw bytes: for a UTF-16 workflow (which the YAML reader decodes by its byte order mark) the snippet is a run of NUL-separated bytes, possibly of another line, and the caret is misplaced")
 	}
 }
+
+// ---- C19.EQSELF ----
+
+// Structural equality of raw YAML values is defined by recursion over Equals itself. Delegating it to another relation of
+// the module (the subset test of the exclude filter, which lets any ${{ }} text match everything and matches nested
+// mappings by inclusion) makes "duplicate" mean something else than "equal".
+func init() {
+	register(&Rule{ID: "C19.EQSELF", Min: 3, Doc: "Equals of raw YAML values recurses through Equals only, never through another relation of the module", Run: runC19EqSelf})
+}
+
+func runC19EqSelf(c *Ctx) {
+	p := c.P
+	for _, fn := range p.Funcs {
+		if fn.Name() != "Equals" || fn.Signature.Recv() == nil || fn.Parent() != nil {
+			continue
+		}
+		recvT := namedOf(fn.Signature.Recv().Type())
+		if recvT == nil || !strings.HasPrefix(recvT.Obj().Name(), "RawYAML") {
+			continue
+		}
+		construct := FuncName(fn) + "|relations used"
+		var foreign []string
+		eachInstr(fn, func(_ *ssa.BasicBlock, _ int, in ssa.Instruction) {
+			call, ok := in.(ssa.CallInstruction)
+			if !ok {
+				return
+			}
+			for _, g := range p.calleesOf(call) {
+				if !inModule(g) || g.Name() == "Equals" {
+					continue
+				}
+				if sig := g.Signature; sig.Results().Len() == 1 && typeStr(sig.Results().At(0).Type()) == "bool" {
+					foreign = append(foreign, FuncName(g))
+				}
+			}
+		})
+		if len(foreign) == 0 {
+			c.ok(construct, fn.Pos(), "compares through Equals of the members only")
+		} else {
+			sort.Strings(foreign)
+			c.bad(construct, fn.Pos(), "equality is decided by "+strings.Join(foreign, ", ")+", which is not an equality relation: values that merely stand in that relation are reported as duplicates")
+		}
+	}
+}
+
+// ---- C02.CPUBRANCH ----
+
+// The number of CPUs may size the worker pool; it may not select a code path. A branch on runtime.NumCPU() /
+// GOMAXPROCS makes the output a function of the machine unless both arms are proved equivalent, which no rule here does.
+func init() {
+	register(&Rule{ID: "C02.CPUBRANCH", Min: 1, Doc: "the number of CPUs only sizes worker pools and never decides a branch", Run: runC02CPUBranch})
+}
+
+func runC02CPUBranch(c *Ctx) {
+	p := c.P
+	type item struct{ v ssa.Value }
+	seen := map[ssa.Value]bool{}
+	var work []ssa.Value
+	origin := map[ssa.Value]string{}
+	n := 0
+	for _, fn := range p.Funcs {
+		eachInstr(fn, func(_ *ssa.BasicBlock, _ int, in ssa.Instruction) {
+			call, ok := in.(*ssa.Call)
+			if !ok {
+				return
+			}
+			switch calleeFullName(&call.Call) {
+			case "runtime.NumCPU", "runtime.GOMAXPROCS":
+				n++
+				work = append(work, call)
+				origin[call] = calleeFullName(&call.Call) + "() in " + FuncName(fn)
+			}
+		})
+	}
+	bad := map[string]token.Pos{}
+	for len(work) > 0 {
+		v := work[len(work)-1]
+		work = work[:len(work)-1]
+		if seen[v] || v.Referrers() == nil {
+			continue
+		}
+		seen[v] = true
+		push := func(w ssa.Value) {
+			if _, ok := origin[w]; !ok {
+				origin[w] = origin[v]
+			}
+			work = append(work, w)
+		}
+		for _, ref := range *v.Referrers() {
+			switch r := ref.(type) {
+			case *ssa.If:
+				bad[FuncName(r.Parent())+"|branch on "+origin[v]] = r.Cond.Pos()
+			case *ssa.BinOp:
+				push(r)
+			case *ssa.Convert:
+				push(r)
+			case *ssa.ChangeType:
+				push(r)
+			case *ssa.Phi:
+				push(r)
+			case *ssa.UnOp:
+				push(r)
+			case *ssa.Store:
+				// a field or local that keeps the number: follow its loads
+				if fa, ok := r.Addr.(*ssa.FieldAddr); ok && r.Val == v {
+					name := fieldAddrName(fa)
+					for _, fn := range p.Funcs {
+						eachInstr(fn, func(_ *ssa.BasicBlock, _ int, in ssa.Instruction) {
+							if ld, ok := in.(*ssa.UnOp); ok && ld.Op == token.MUL {
+								if fa2, ok := ld.X.(*ssa.FieldAddr); ok && fieldAddrName(fa2) == name {
+									push(ld)
+								}
+							}
+						})
+					}
+				}
+				if al, ok := r.Addr.(*ssa.Alloc); ok && r.Val == v {
+					for _, r2 := range *al.Referrers() {
+						if ld, ok := r2.(*ssa.UnOp); ok && ld.Op == token.MUL {
+							push(ld)
+						}
+					}
+				}
+			case ssa.CallInstruction:
+				cc := r.Common()
+				for _, g := range p.calleesOf(r) {
+					if !inModule(g) || g.Blocks == nil {
+						continue
+					}
+					off := 0
+					if cc.IsInvoke() {
+						off = 1
+					}
+					for i, a := range cc.Args {
+						if a == v && i+off < len(g.Params) {
+							push(g.Params[i+off])
+						}
+					}
+				}
+			}
+		}
+	}
+	if n == 0 {
+		c.anchorMissing("runtime.NumCPU / runtime.GOMAXPROCS (the worker pool is no longer sized by the machine?)")
+		return
+	}
+	if len(bad) == 0 {
+		c.ok("number of CPUs", token.NoPos, fmt.Sprintf("%d reads of the CPU count; their values reach pool sizes only, no branch condition", n))
+		return
+	}
+	keys := make([]string, 0, len(bad))
+	for k := range bad {
+		keys = append(keys, k)
+	}
+	sort.Strings(keys)
+	for _, k := range keys {
+		c.bad(k, bad[k], "a branch is decided by the number of CPUs: which of the two code paths produces the diagnostics depends on the machine (or GOMAXPROCS), and nothing shows the paths equivalent")
+	}
+}
+
+// ---- C06.COPYOPEN ----
+
+// Whoever copies the properties of an object type into a new object type has to carry its openness (Mapped) over as
+// well: a copy built with a strict constructor turns an open object into a closed one, and every property that was
+// accepted because the object is open is reported from then on.
+func init() {
+	register(&Rule{ID: "C06.COPYOPEN", Min: 2, Doc: "a copy of an object type's properties into a new object type also reads the original's openness", Run: runC06CopyOpen})
+}
+
+func runC06CopyOpen(c *Ctx) {
+	p := c.P
+	for _, fn := range p.Funcs {
+		occ := 0
+		eachInstr(fn, func(_ *ssa.BasicBlock, _ int, in ssa.Instruction) {
+			rg, ok := in.(*ssa.Range)
+			if !ok {
+				return
+			}
+			f, base := fieldLoad(rg.X)
+			if f != "ObjectType.Props" {
+				return
+			}
+			// the loop stores its key into a map made in this function
+			var dst ssa.Value
+			for _, ref := range *rg.Referrers() {
+				nx, ok := ref.(*ssa.Next)
+				if !ok {
+					continue
+				}
+				for _, r2 := range *nx.Referrers() {
+					ex, ok := r2.(*ssa.Extract)
+					if !ok || ex.Index != 1 {
+						continue
+					}
+					for _, r3 := range *ex.Referrers() {
+						if mu, ok := r3.(*ssa.MapUpdate); ok && mu.Key == ssa.Value(ex) {
+							// the value is the property's own type (or a copy of it): a copy of the object, not a new
+							// object that merely has the same names
+							val := unwrap(mu.Value)
+							if call, ok := val.(*ssa.Call); ok && call.Call.IsInvoke() {
+								val = unwrap(call.Call.Value)
+							}
+							vex, ok := val.(*ssa.Extract)
+							if !ok || vex.Tuple != ex.Tuple || vex.Index != 2 {
+								continue
+							}
+							if _, fresh := mu.Map.(*ssa.MakeMap); fresh {
+								dst = mu.Map
+							}
+						}
+					}
+				}
+			}
+			if dst == nil {
+				return
+			}
+			// the map becomes the Props of a new object type
+			becomes := false
+			for _, ref := range *dst.Referrers() {
+				switch r := ref.(type) {
+				case *ssa.Store:
+					if fa, ok := r.Addr.(*ssa.FieldAddr); ok && fieldAddrName(fa) == "ObjectType.Props" && r.Val == dst {
+						becomes = true
+					}
+				case *ssa.Call:
+					if g := staticCallee(&r.Call); g != nil && inModule(g) && strings.HasSuffix(g.Name(), "ObjectType") {
+						becomes = true
+					}
+				}
+			}
+			if !becomes {
+				return
+			}
+			occ++
+			construct := fmt.Sprintf("%s|copy of %s.Props#%d", FuncName(fn), describeKey(base), occ)
+			reads := false
+			eachInstr(fn, func(_ *ssa.BasicBlock, _ int, in2 ssa.Instruction) {
+				if ld, ok := in2.(*ssa.UnOp); ok && ld.Op == token.MUL {
+					if fa, ok := ld.X.(*ssa.FieldAddr); ok && fieldAddrName(fa) == "ObjectType.Mapped" && sameContainer(fa.X, base) {
+						reads = true
+					}
+				}
+			})
+			if reads {
+				c.ok(construct, rg.Pos(), "the function also reads Mapped of the copied object")
+			} else {
+				c.bad(construct, rg.Pos(), "the properties are copied into a new object type and the openness (Mapped) of the original is never read: an open object (e.g. the steps context after a step id written as ${{ }}) becomes closed again, and references that were accepted are reported")
+			}
+		})
+	}
+}
